@@ -17,6 +17,13 @@ every well-formed tree, exactly k slots: min(k, Size) stored objects (a sub-mult
 the ROUNDED squared distance, nothing left out having a smaller rounded distance, remaining slots nil —
 `Spec.specKNNBy` with the rounded distance as key, which for `fl = id` is `Spec.specKNN` (`specKNN_eq_by`, `rfl`).
 `C12_knn_rne`: the same with IEEE-754 binary64 roundTiesToEven.
+
+The hypothesis built into `fMinDist` / `fMinMaxDist` — ONE rounding after every `-`, `*`, `+`, no fused multiply-add —
+holds for the real code on every architecture since fix 0fdcaaf: geom.go converts every product explicitly
+(`float64(d * d)`), and the Go specification forbids fusing across an explicit conversion.  Before it this was a
+property of amd64 code generation only (arm64/ppc64le fused six sites; `C12_fused_unsound` is the negation for that
+code, for `C12_nn_float`/`C12_nn_rne` as well as for the theorems here).  checks/C12.py inspects the arm64 machine code
+of `minDist`/`minMaxDist` on every run (FMA guard).
 -/
 set_option linter.unusedVariables false
 set_option linter.unusedSimpArgs false
